@@ -67,6 +67,12 @@ func vestingOps() []OpDef {
 				if i > 0 && r.Chance(0.1) {
 					d = dw[0] // duplicate destination id
 				}
+				if r.Chance(0.08) {
+					// destination ids are not validated: a contract wallet (incl. the vesting contract itself) may be named
+					names := []string{"vesting", "faucet", "miner", "storage"}
+					n := names[r.Intn(len(names))]
+					d = &world.Wallet{Name: "sc:" + n, ID: world.SCAddresses[n]}
+				}
 				a := h.vestAmount(r)
 				total += a
 				dests = append(dests, map[string]interface{}{"id": d.ID, "amount": a, "vested": uint64(r.Intn(2)) * a})
